@@ -28,6 +28,16 @@ fn check_solar_year(ctx: &Ctx, civ: &Civil, y: i32, loc: &mut Local) {
     for h in sy.get_half_years() {
       nest.push((h.get_seasons().iter().map(|s| (s.get_year(), s.get_index())).collect::<Vec<_>>(), h.get_months().iter().map(|m| (m.get_year(), m.get_month())).collect::<Vec<_>>()));
     }
+    for h in sy.get_half_years() {
+      if h.get_solar_year().get_year() != sy.get_year() {
+        panic!("half-year {} get_solar_year() = {}", h.get_index(), h.get_solar_year().get_year());
+      }
+    }
+    for s in sy.get_seasons() {
+      if s.get_solar_year().get_year() != sy.get_year() {
+        panic!("season {} get_solar_year() = {}", s.get_index(), s.get_solar_year().get_year());
+      }
+    }
     let mut snest = Vec::new();
     for s in sy.get_seasons() {
       snest.push(s.get_months().iter().map(|m| (m.get_year(), m.get_month(), m.get_season().get_index())).collect::<Vec<_>>());
@@ -64,6 +74,13 @@ fn check_solar_year(ctx: &Ctx, civ: &Civil, y: i32, loc: &mut Local) {
     let r = guard(|| {
       let sm = SolarMonth::from_ym(yy, m as usize);
       let days = sm.get_days();
+      let back_ok = days.iter().all(|d| {
+        let b = d.get_solar_month();
+        b.get_year() == yy && b.get_month() == m as usize
+      }) && sm.get_solar_year().get_year() == yy;
+      if !back_ok {
+        panic!("a listed day's get_solar_month() (or the month's get_solar_year()) does not point back to {}-{}", yy, m);
+      }
       (days.iter().map(|d| ymd_of(d)).collect::<Vec<_>>(), sm.get_day_count(), days.iter().map(|d| d.get_index_in_year()).collect::<Vec<_>>())
     });
     let mkey = format!("{:04}-{:02}", y, m);
@@ -138,7 +155,20 @@ fn check_lunar_year(ctx: &Ctx, civ: &Civil, t: &LunTable, y: isize, loc: &mut Lo
         Err(m) => ctx.violation("lunar_month_days", l.key(), format!("panics: {}", m), vec!["lmonth".to_string(), l.y.to_string(), l.m.to_string()]),
       }
     }
-    let r = guard(|| LunarMonth::from_ym(l.y as isize, l.m as isize).get_days().iter().map(|d| (d.get_year() as i32, d.get_month() as i8, d.get_day(), ymd_of(&d.get_solar_day()))).collect::<Vec<_>>());
+    let r = guard(|| {
+      let lm = LunarMonth::from_ym(l.y as isize, l.m as isize);
+      if lm.get_lunar_year().get_year() != l.y as isize {
+        panic!("get_lunar_year() = {}", lm.get_lunar_year().get_year());
+      }
+      let ds = lm.get_days();
+      for d in ds.iter() {
+        let b = d.get_lunar_month();
+        if b.get_year() != l.y as isize || b.get_month_with_leap() != l.m as isize || b.get_day_count() != l.days as usize {
+          panic!("listed day {} points back to lunar month {}-{} of {} days", d.get_day(), b.get_year(), b.get_month_with_leap(), b.get_day_count());
+        }
+      }
+      ds.iter().map(|d| (d.get_year() as i32, d.get_month() as i8, d.get_day(), ymd_of(&d.get_solar_day()))).collect::<Vec<_>>()
+    });
     let rp = vec!["lmonth".to_string(), l.y.to_string(), l.m.to_string()];
     match r {
       Ok(ds) => {
@@ -205,7 +235,18 @@ fn check_sixty_month(ctx: &Ctx, civ: &Civil, tm: &Terms, y: isize, k: usize, loc
   debug_assert_eq!(ym_of_g(gj).1, k);
   loc.states += 1;
   loc.transitions += 1;
-  let r = guard(|| SixtyCycleMonth::from_index(y, k as isize).get_days().iter().map(|d| ymd_of(&d.get_solar_day())).collect::<Vec<_>>());
+  let r = guard(|| {
+    let ds = SixtyCycleMonth::from_index(y, k as isize).get_days();
+    if !ds.is_empty() {
+      for &i in &[0usize, ds.len() / 2, ds.len() - 1] {
+        let b = ds[i].get_sixty_cycle_month();
+        if b.get_index_in_year() != k || b.get_sixty_cycle_year().get_year() != y {
+          panic!("listed day #{} points back to month {} of year {}", i, b.get_index_in_year(), b.get_sixty_cycle_year().get_year());
+        }
+      }
+    }
+    ds.iter().map(|d| ymd_of(&d.get_solar_day())).collect::<Vec<_>>()
+  });
   let key = format!("{:04}/{:02}", y, k);
   let rp = vec!["smonth60".to_string(), y.to_string(), k.to_string()];
   match r {
